@@ -414,14 +414,80 @@ def ob_reopen_busy(w, P):
     flag('nontrivial')
     return cl
 
+def ob_fresh_connection_busy(w, P):
+    """the first operations of a handle on a fresh connection (after close(), or from a thread that has not used the object
+    yet) while another client holds the write lock: opening the connection only re-applies the stored sqlite_* pragmas, so
+    lookups never ask for the write lock and answer from the committed state, and a write without retry is refused with
+    Timeout at its BEGIN IMMEDIATE, leaving nothing behind"""
+    L = w.L
+    core = L.core
+    w.clock_fn = lambda: 1000.0
+    cl = []
+    c = core.Cache(w.dir, disk_min_file_size=0, eviction_policy='least-recently-stored')
+    c.set(1, 11)
+    how = P['how']
+    if how == 'closed':
+        c.close()
+    else:
+        w.tid = w.tid + 7  # a thread that has no connection on this object yet
+    kk = w.int('busy_k', 1, 3)
+    calls = [0]
+
+    def hook(con):
+        calls[0] += 1
+        flag('lock_busy')
+        return bool(kk >= calls[0])
+    probe = core.Cache(w.dir)
+    w.set_busy_hook(probe, hook)
+    w.start_events()
+    res = {}
+    try:
+        res['in'] = 1 in c
+        res['get'] = c.get(1)
+        res['len'] = len(c)
+    except Exception as e:
+        if type(e).__name__ == 'HarnessBug':
+            raise
+        res['err'] = type(e).__name__
+    asked = calls[0]
+    try:
+        c.set(2, b'file-backed', retry=False)
+        res['set'] = 'stored'
+    except core.Timeout:
+        res['set'] = 'timeout'
+    except Exception as e:
+        if type(e).__name__ == 'HarnessBug':
+            raise
+        res['set'] = type(e).__name__
+    w.stop_events()
+    w.set_busy_hook(probe, None)
+
+    def same(p, q):
+        return EqR(zv(p), zv(q)) if is_num_like(p) and is_num_like(q) else p == q
+    cl.append(('C14,C18', 'lookups on a fresh connection answer from the committed state (%s)' % res.get('err', 'no exception'),
+               'err' not in res and res.get('in') is True and same(res.get('get'), 11) and same(res.get('len'), 1)))
+    cl.append(('C14', 'and never ask for the write lock', asked == 0))
+    cl.append(('C14', 'a write without retry on a fresh connection is refused with Timeout (%s)' % res['set'], res['set'] == 'timeout'))
+    import warnings
+    with warnings.catch_warnings(record=True):
+        warnings.simplefilter('always')
+        found = probe.check()
+    cl.append(('C14,C08', 'and leaves nothing behind (check() reports %d problems)' % len(found), And(same(len(probe), 1), len(found) == 0)))
+    flag('nontrivial')
+    return cl
+
+
 def jobs(tier):
     out = []
     F = ['core.Cache.__init__', 'core.Cache._con', 'core.Cache.reset', 'core.Cache.close', 'core.Cache.__getstate__', 'core.Cache.__setstate__']
+    for how in ('closed', 'thread'):
+        out.append(dict(id='fresh_connection.busy.%s' % how, func='ob_fresh_connection_busy', params=dict(how=how), tags=['C14', 'C18'], functions=F + ['core.Cache.get', 'core.Cache.set', 'core.Cache.__contains__'],
+                        weight=4, twin=False, must_reach=['lock_busy']))
     for d in ('plain', 'sub'):
-        out.append(dict(id='persist.settings.%s' % d, func='ob_settings', params=dict(disk=d), tags=['C18'], functions=F, weight=10, twin=False,
+        out.append(dict(id='persist.settings.%s' % d, func='ob_settings', params=dict(disk=d), tags=['C18', 'C02'], functions=F, weight=10, twin=False,
                         must_reach=['disk_subclass'] if d == 'sub' else []))
     for k in ('cache', 'fanout', 'deque', 'index'):
-        out.append(dict(id='persist.lifecycle.%s' % k, func='ob_lifecycle', params=dict(kind=k), tags=['C18', 'C11', 'C12'] + (['C13'] if k == 'fanout' else []),
+        out.append(dict(id='persist.lifecycle.%s' % k, func='ob_lifecycle', params=dict(kind=k), tags=['C18', 'C11', 'C12'] + (['C13', 'C15'] if k == 'fanout' else []),
                         functions=F + ['fanout.FanoutCache.__getstate__', 'fanout.FanoutCache.__setstate__', 'persistent.Deque.__getstate__', 'persistent.Deque.__setstate__',
                                        'persistent.Index.__getstate__', 'persistent.Index.__setstate__'], weight=5, twin=False))
     for fan in (False, True):
